@@ -84,6 +84,7 @@ func runC05(p *Program, r *Report) {
 	c07funnel(p, r, "C05.funnel")
 	cSpawns(p, r, "C05.spawn")
 	cClosers(p, r, "C05.closers")
+	c10closes(p, r, "C05.ctxclose")
 	// summaries into the evidence
 	sum := map[string]string{}
 	for _, fn := range p.Funcs {
